@@ -5,14 +5,17 @@
 (* the real chain around the split (M), the BSV split header (the only     *)
 (* header acceptable at Hs), the BCH split header, other headers offered   *)
 (* at Hs on the main chain and on forks created one and two blocks below,  *)
-(* and headers with unknown parents.  Any offer order.                     *)
+(* a fork of a fork that overtakes, and headers with unknown parents.  Any  *)
+(* offer order, with the maintenance operation at any point.                *)
 (***************************************************************************)
 EXTENDS Integers, Sequences, FiniteSets, TLC, Json
 CONSTANTS Depth,      \* offers per behaviour
-          Offerable   \* names that may be offered
+          Offerable,  \* names that may be offered
+          Prefix      \* a sequence of names (or "clean") that every behaviour starts with, then any order
 
-\* pool: name -> [parent, rel]   rel = height - Hs ; "base" (rel -3) is held from the start
-Pool == [ m2   |-> [parent |-> "base", rel |-> -2],     \* real chain
+\* pool: name -> [parent, rel]   rel = height - Hs ; "base" (rel -4) is held from the start
+Pool == [ m3   |-> [parent |-> "base", rel |-> -3],     \* real chain
+          m2   |-> [parent |-> "m3",   rel |-> -2],
           m1   |-> [parent |-> "m2",   rel |-> -1],     \* real 556766, the fork point of the splits
           bsv  |-> [parent |-> "m1",   rel |-> 0],      \* the BSV split header
           m_1  |-> [parent |-> "bsv",  rel |-> 1],      \* real 556768
@@ -21,9 +24,13 @@ Pool == [ m2   |-> [parent |-> "base", rel |-> -2],     \* real chain
           x0   |-> [parent |-> "m1",   rel |-> 0],      \* some other header on top of 556766
           f1   |-> [parent |-> "m2",   rel |-> -1],     \* fork created one below the split height
           f1x  |-> [parent |-> "f1",   rel |-> 0],      \* ... and its header at the split height
-          g2   |-> [parent |-> "base", rel |-> -2],     \* fork created two below
+          g3   |-> [parent |-> "base", rel |-> -3],     \* fork created three below
+          g2   |-> [parent |-> "g3",   rel |-> -2],
           g1   |-> [parent |-> "g2",   rel |-> -1],
           g0   |-> [parent |-> "g1",   rel |-> 0],
+          h2   |-> [parent |-> "g3",   rel |-> -2],     \* a fork of that fork, with more work than everything else:
+          h1   |-> [parent |-> "h2",   rel |-> -1],     \* it becomes the best chain and a clean consolidates it,
+          h0   |-> [parent |-> "h1",   rel |-> 0],      \* re-hanging g2 g1 below it
           late |-> [parent |-> "m_1",  rel |-> 2],      \* fork above the split: unaffected
           orph |-> [parent |-> "nowhere", rel |-> 5],   \* unknown parent
           gen1 |-> [parent |-> "genesis", rel |-> -556766] ]   \* child of genesis while genesis is not held
@@ -43,12 +50,19 @@ Verdict(b) ==
     ELSE IF Pool[b].rel = 0 THEN (IF b = "bsv" THEN "ok" ELSE "wrongchain")
     ELSE "ok"
 
-Offer(b) == /\ Len(hist) < Depth
+Forced(b) == IF Len(hist) >= Len(Prefix) THEN TRUE ELSE Prefix[Len(hist) + 1] = b
+Offer(b) == /\ Len(hist) < Depth /\ Forced(b)
             /\ LET v == Verdict(b)
                IN /\ acc' = IF v = "ok" THEN acc \cup {b} ELSE acc
                   /\ last' = [b |-> b, verdict |-> v]
                   /\ hist' = Append(hist, [b |-> b, verdict |-> v])
-Next == \E b \in Offerable : Offer(b)
+\* Clean (consolidation of the best chain, re-hanging of the other branches) changes nothing the verdicts
+\* depend on; it is in the behaviours because the code's height bookkeeping is rebuilt by it.
+Clean == /\ Len(hist) < Depth /\ "clean" \in Offerable /\ last.b # "clean" /\ Forced("clean")
+         /\ last' = [b |-> "clean", verdict |-> "ok"]
+         /\ hist' = Append(hist, [b |-> "clean", verdict |-> "ok"])
+         /\ UNCHANGED acc
+Next == (\E b \in (Offerable \cup {Prefix[i] : i \in 1..Len(Prefix)}) \ {"clean"} : Offer(b)) \/ Clean
 Spec == Init /\ [][Next]_vars
 
 \* C03: no header other than the BSV split header is ever accepted at the split height, on any branch
